@@ -70,17 +70,29 @@ pub struct RunOpts {
     pub validate_bc: bool,
     pub cover_bc: bool,
     pub mem_limit: u64,
+    /// FAIL mode: the k-th armed allocation (1-based) returns null
+    pub fail_at: u64,
 }
 
 impl Default for RunOpts {
     fn default() -> Self {
-        RunOpts { alloc_mode: alloc::PASS, ceiling_s: 10, rerun_on_timeout: true, validate_bc: true, cover_bc: true, mem_limit: 0 }
+        RunOpts { alloc_mode: alloc::PASS, ceiling_s: 10, rerun_on_timeout: true, validate_bc: true, cover_bc: true, mem_limit: 0, fail_at: 0 }
     }
 }
 
 fn child_body(code: &str, jobs: &[Job], from: usize, to: usize, o: &RunOpts, ceiling: u32) -> i32 {
     alloc::install_fault_handler();
     alloc::set_mode(o.alloc_mode);
+    alloc::FAIL_AT.store(o.fail_at, std::sync::atomic::Ordering::Relaxed);
+    if o.fail_at != 0 {
+        // the allocation-failure abort prints to stderr; keep the logs readable
+        unsafe {
+            let fd = libc::open(b"/dev/null\0".as_ptr() as *const libc::c_char, libc::O_WRONLY);
+            if fd >= 0 {
+                libc::dup2(fd, 2);
+            }
+        }
+    }
     if o.mem_limit != 0 {
         sys::limit_address_space(o.mem_limit);
     }
@@ -132,6 +144,14 @@ fn child_body(code: &str, jobs: &[Job], from: usize, to: usize, o: &RunOpts, cei
     }
     sys::set_alarm(0);
     0
+}
+
+pub fn child_body_pub(code: &str, jobs: &[Job], from: usize, to: usize, o: &RunOpts, ceiling: u32) -> i32 {
+    child_body(code, jobs, from, to, o, ceiling)
+}
+
+pub fn snapshot_pub(i: usize, end: End) -> Obs {
+    snapshot(i, end)
 }
 
 /// Run all jobs of one case in forked children; returns one observation per job.
